@@ -137,6 +137,7 @@ class Shim:
             else:
                 self.matchers.append(dict(f, _seen=0))
         self.fired = []
+        self.last_n = 0
         self.probes = {}
         self.dir_order = spec.get("dir_order")  # None | "sorted" | {"seed": n}
         self.torn_fds = {}
@@ -203,6 +204,7 @@ class Shim:
         rp2 = self.resolve(path2, dir_fd2) if path2 is not None else None
         elig = force_eligible and self.armed or self.eligible(rp) or (rp2 is not None and self.eligible(rp2))
         self.n += 1
+        self.last_n = self.n
         idx = 0
         if elig:
             self.e += 1
@@ -232,6 +234,18 @@ class Shim:
             code = ERRNOS[fault["errno"]]
             raise OSError(code, os.strerror(code) + " (simulated)", os.fspath(path) if not isinstance(path, int) else None)
         return fault
+
+    def failed(self, n, exc):
+        """The real call behind operation n raised: it had no effect on the file system."""
+        self.log(["fail", n, getattr(exc, "errno", None)])
+
+    def call(self, real, *a, **k):
+        n = self.last_n
+        try:
+            return real(*a, **k)
+        except OSError as e:
+            self.failed(n, e)
+            raise
 
     def _match(self, kind, rel, rel2):
         import re
@@ -270,8 +284,8 @@ class Shim:
             def w(path, *a, dir_fd=None, **k):
                 S.op(kind, path, dir_fd)
                 if dir_fd is not None:
-                    return real(path, *a, dir_fd=dir_fd, **k)
-                return real(path, *a, **k)
+                    return S.call(real, path, *a, dir_fd=dir_fd, **k)
+                return S.call(real, path, *a, **k)
             w.__name__ = name
             return w
 
@@ -290,7 +304,7 @@ class Shim:
                     kw["src_dir_fd"] = src_dir_fd
                 if dst_dir_fd is not None:
                     kw["dst_dir_fd"] = dst_dir_fd
-                return real(src, dst, **kw)
+                return S.call(real, src, dst, **kw)
             w.__name__ = name
             return w
 
@@ -300,21 +314,21 @@ class Shim:
         def symlink(src, dst, target_is_directory=False, *, dir_fd=None):
             S.op("symlink", dst, dir_fd)
             if dir_fd is not None:
-                return _real["symlink"](src, dst, target_is_directory, dir_fd=dir_fd)
-            return _real["symlink"](src, dst, target_is_directory)
+                return S.call(_real["symlink"], src, dst, target_is_directory, dir_fd=dir_fd)
+            return S.call(_real["symlink"], src, dst, target_is_directory)
         os.symlink = symlink
 
         def link(src, dst, **k):
             S.op("link", dst)
-            return _real["link"](src, dst, **k)
+            return S.call(_real["link"], src, dst, **k)
         os.link = link
 
         def os_open(path, flags, mode=0o777, *, dir_fd=None):
             kind = "os.open-w" if flags & _W_FLAGS else "os.open-r"
             S.op(kind, path, dir_fd)
             if dir_fd is not None:
-                return _real["open"](path, flags, mode, dir_fd=dir_fd)
-            return _real["open"](path, flags, mode)
+                return S.call(_real["open"], path, flags, mode, dir_fd=dir_fd)
+            return S.call(_real["open"], path, flags, mode)
         os.open = os_open
 
         def scandir(path="."):
@@ -352,7 +366,7 @@ class Shim:
                 return _real_open(file, mode, *a, **k)
             writing = any(c in mode for c in "wax+")
             fault = S.op("open-w" if writing else "open-r", file)
-            f = _real_open(file, mode, *a, **k)
+            f = S.call(_real_open, file, mode, *a, **k)
             if fault is not None and fault["action"] == "torn" and writing:
                 keep = int(fault.get("keep", 0))
                 try:
